@@ -51,6 +51,12 @@ def gen(rnd, family):
             a = (add("addconst", [a], val=100), 1)
         for _ in range(rnd.randint(0, 2)):
             b = (add("addconst", [b], val=10000), 1)
+        if rnd.random() < 0.4:
+            # one branch drains in small pieces: the two outputs of the tee fill unevenly
+            if rnd.random() < 0.5:
+                a = (add("slow", [a], ms=0, max=1), 1)
+            else:
+                b = (add("slow", [b], ms=0, max=rnd.choice([1, 2])), 1)
         if rnd.random() < 0.65:
             m = add("add", [a, b] if rnd.random() < 0.5 else [b, a])
             if rnd.random() < 0.3:
@@ -59,6 +65,24 @@ def gen(rnd, family):
         else:
             add("sink", [a])
             add("sink", [b])
+    elif family == "tee_uneven":
+        # fan-out whose branches drain at different paces and in pieces smaller than a stream, with a
+        # source longer than a stream: the outputs of the tee are filled to different levels
+        cap = rnd.choice([2, 3, 4, 4])
+        sb = cap * 4096
+        n = rnd.randint(2 * cap + 1, 4 * cap + 2)
+        s = add("src_big", data=list(range(1, n + 1)))
+        t = add("tee", [(s, 1)])
+        a, b = (t, 1), (t, 2)
+        if rnd.random() < 0.5:
+            a, b = b, a
+        if rnd.random() < 0.5:
+            a = (add("addconst", [a], val=100), 1)
+        b = (add("slow", [b], ms=0, max=rnd.choice([1, 1, 2])), 1)
+        if rnd.random() < 0.3:
+            b = (add("addconst", [b], val=10000), 1)
+        add("sink", [a])
+        add("sink", [b])
     elif family == "pkt":
         bits = []
         for _ in range(rnd.randint(2, 6)):
@@ -161,7 +185,7 @@ def gen(rnd, family):
     return {"nodes": nodes, "order": order, "stream_bytes": sb, "family": family}
 
 
-FAMILIES = ["big_chain", "big_diamond", "pkt", "u8_rate", "bits", "float"]
+FAMILIES = ["big_chain", "big_diamond", "tee_uneven", "pkt", "u8_rate", "bits", "float"]
 
 
 def make(ctx, runners, per_family, seeds_per_graph=1, salt=0):
@@ -265,6 +289,9 @@ def small_graphs():
     gs.append({"family": "sys_chain", "stream_bytes": 4096, "nodes": [N("src_big", data=[1, 2, 3]), N("addconst", [(1, 1)], val=1000), N("sink", [(2, 1)])]})
     gs.append({"family": "sys_delay", "stream_bytes": 4096, "nodes": [N("src_big", data=[1, 2]), N("delay", [(1, 1)], delay=2), N("sink", [(2, 1)])]})
     gs.append({"family": "sys_diamond", "stream_bytes": 4096, "nodes": [N("src_big", data=[1, 2]), N("tee", [(1, 1)]), N("add", [(2, 1), (2, 2)]), N("sink", [(3, 1)])]})
+    # fan-out whose second branch drains one sample at a time (uneven fill of the tee's outputs)
+    gs.append({"family": "sys_tee_sip", "stream_bytes": 8192, "nodes": [N("src_big", data=[1, 2, 3]), N("tee", [(1, 1)]), N("sink", [(2, 1)]),
+                                                                      N("slow", [(2, 2)], ms=0, max=1), N("sink", [(4, 1)])]})
     # packets that do not both fit in the output stream of VecToStream (4096 bytes): the second one
     # has to wait until the sink has taken the first
     gs.append({"family": "sys_v2s_full", "stream_bytes": 4096, "nodes": [N("src_pkt", pkts=[[3000, 1], [2000, 100], [5, 200]]), N("v2s", [(1, 1)]), N("sink", [(2, 1)])]})
